@@ -125,6 +125,32 @@ def gen_space(rng, f32=False, max_params=6, types='DISC', max_int_width=40):
   return ps
 
 
+def twin_space(rng, space):
+  """Same names, types, scale types and the same SUMMARY of every domain (number of feasible values,
+  smallest and largest one) - different feasible sets: what a second study in the same process looks like
+  to anything keyed by less than the whole domain."""
+  out = []
+  for p in space:
+    q = dict(p)
+    if p['t'] == 'S' and len(p['vals']) >= 3:
+      vals = list(p['vals'])
+      for _ in range(8):
+        i = rng.randrange(1, len(vals) - 1)
+        lo, hi = vals[i - 1], vals[i + 1]
+        v = float('%.4g' % (lo + (hi - lo) * rng.choice([0.25, 0.5, 0.75])))
+        if lo < v < hi and v != vals[i] and min(v - lo, hi - v) > 1e-3 * (vals[-1] - vals[0]):
+          vals[i] = v
+      q['vals'] = vals
+    elif p['t'] == 'C' and not p.get('bool'):
+      cats = list(p['cats'])
+      extra = [x for x in CAT_POOL if x not in cats]
+      if extra:
+        cats[rng.randrange(len(cats))] = rng.choice(extra)
+      q['cats'] = sorted(cats)
+    out.append(q)
+  return out
+
+
 def num_feasible(p):
   if p['t'] == 'D':
     return math.inf
